@@ -73,7 +73,9 @@ function spellings(e) {
     const ch = min[i]
     if (quote) { withComments += ch; if (ch === '\\') { withComments += min[++i] } else if (ch === quote) quote = null; continue }
     if (ch === '"' || ch === "'") { quote = ch; withComments += ch; continue }
-    withComments += ch === ' ' ? ' /*c*/ ' : ch
+    // (the comment stands directly against its neighbours - `a*/*c*/b` - unless a neighbour is `/`, which would pair up with it)
+    if (ch === ' ') withComments += (min[i - 1] === '/' || min[i + 1] === '/') ? ' /*c*/ ' : '/*c*/'
+    else withComments += ch
   }
   return [min, M.printFull(e), withComments]
 }
